@@ -6,6 +6,7 @@ import (
 	"testing"
 
 	"verifsim/core"
+	_ "verifsim/sims/addrsim"
 	_ "verifsim/sims/dbsim"
 	_ "verifsim/sims/ledgersim"
 	_ "verifsim/sims/migsim"
